@@ -1,1 +1,810 @@
-/- C08 — property theorems (stub: not built yet). -/
+/-
+C08 — Converting between games preserves chart content exactly, from any source state.
+
+Property theorems about the executable model `Model/Convert.lean` (tied to reamber/algorithms/convert/*.py,
+TimedList.empty, Map.stack by the correspondence check) and about the table `Generated/Converters.lean` that the
+translator re-extracts from the source on every run.  Specification: `Spec/Convert.lean` (the same definitions the
+driver evaluates on the implementation's output).
+
+Full statement (property text): for all 16 converters and the merge variant, all source charts and all histories,
+the result's hits / holds / tempo points are exactly the source's (column shifted only by the shift argument), SVs
+are carried when both games have them, title/artist/creator/difficulty name come from the source, only the target's
+fields and no missing value, one target chart per source chart, source untouched.
+
+What is proved here:
+* `cast_exact`, `cast_col_exact`, `cast_unmapped_default`, `cast_fields`  — `ConvertBase.cast` for *every* row
+  labelling of the source (history independence: `cast_label_independent`);
+* `convOne_content`, `convert_content`, `converters_content_and_count` — a converter whose table entry passes
+  `staticOk` yields, chart by chart, exactly the source's rows (shift `k` only through the shift parameter), for
+  every source with arbitrary labels and any number of maps, through all five loop shapes;
+* `one_per_source`    — every good loop shape returns one chart per source map;
+* `table_*`           — by `decide` over the generated table: every entry passes `staticOk` (hits←hits, holds←holds,
+  bpms←bpms with the identity column mapping, the declared target class, svs for osu↔Quaver), metadata provenance,
+  loop shapes, shift parameters, no label-aligned entry (D27 repaired) and the `[]` defaults (exactly where finding
+  D08 sits);
+* counterexample theorems for D08, D27 / D11 (the label-aligned assignment, on a hand-written entry), D13 (shape).
+`untouched` is not a theorem: the model is functional; aliasing is runtime behaviour checked by (S) on every case.
+-/
+import Reamber.Lemmas.Convert
+import Reamber.Generated.Converters
+
+namespace Reamber.Convert
+
+open Reamber.Generated
+
+def tables : Tables := ⟨listClasses, mapClasses⟩
+
+/-! ## `cast` -/
+
+/-- **`cast` is exact for every row labelling.**  With positional entries only (`to="from"`), whatever the row
+labels of the source are (fresh `0..n-1`, gaps after a filter, reversed after a sort, offset after a stack edit,
+duplicated), the result has labels `0..n-1`, exactly the target's declared columns in order, and each column holds
+what the assignments of `mapping`, run in order over the replicated default, leave in it. -/
+theorem cast_exact (lists : List (String × Frame)) (src : Frame) (hwf : src.WF)
+    (schema : List (String × Cell)) (mapping : List (String × MapFrom)) (hp : PosOnly src mapping) :
+    cast lists src schema mapping
+      = .ok ⟨rangeIdx src.nrows,
+             schema.map fun p => (p.1, valAfter src mapping p.1 (List.replicate src.nrows p.2))⟩ := by
+  unfold cast empty
+  exact castGo_exact lists src hwf schema mapping (fun p => List.replicate src.nrows p.2) hp
+
+/-- a column named once in the mapping receives the source column, value for value, position for position -/
+theorem cast_col_exact (src : Frame) (mapping : List (String × MapFrom)) (to c : String) (d : Cell)
+    (hnd : (mapping.map (·.1)).Nodup) (hmem : (to, MapFrom.attr c) ∈ mapping) (v : List Cell)
+    (hv : src.col? c = some v) :
+    valAfter src mapping to (List.replicate src.nrows d) = v := by
+  rw [valAfter_nodup src to c mapping _ hnd hmem, hv]; rfl
+
+/-- a declared column the mapping does not name keeps the replicated default -/
+theorem cast_unmapped_default (src : Frame) (mapping : List (String × MapFrom)) (name : String) (d : Cell)
+    (h : name ∉ mapping.map (·.1)) :
+    valAfter src mapping name (List.replicate src.nrows d) = List.replicate src.nrows d :=
+  valAfter_not_mem src name mapping _ h
+
+/-- **History independence of `cast`**: two sources with the same columns and the same number of rows give the
+same result — the row labels (all that filter / sort / append / stack / rate / deepcopy can change besides the
+values) are irrelevant, and so are the other lists of the map. -/
+theorem cast_label_independent (lists lists' : List (String × Frame)) (i1 i2 : List Int)
+    (cols : List (String × List Cell)) (schema : List (String × Cell)) (mapping : List (String × MapFrom))
+    (hlen : i1.length = i2.length) (hp : ∀ p ∈ mapping, ∃ c, p.2 = MapFrom.attr c) :
+    cast lists ⟨i1, cols⟩ schema mapping = cast lists' ⟨i2, cols⟩ schema mapping := by
+  unfold cast
+  have : (⟨i1, cols⟩ : Frame).nrows = (⟨i2, cols⟩ : Frame).nrows := by simp [Frame.nrows, hlen]
+  rw [this]
+  exact castGo_index_irrelevant lists lists' i1 i2 cols mapping _ hp
+
+theorem valAfter_noNan (src : Frame) (hsrc : ∀ p ∈ src.cols, ∀ x ∈ p.2, x ≠ Cell.nan) (name : String) :
+    ∀ (mapping : List (String × MapFrom)) (v0 : List Cell), PosOnly src mapping → (∀ x ∈ v0, x ≠ Cell.nan) →
+      ∀ x ∈ valAfter src mapping name v0, x ≠ Cell.nan
+  | [], v0, _, h0 => by simpa [valAfter] using h0
+  | (to, fr) :: rest, v0, hp, h0 => by
+    obtain ⟨c, hfr, hc⟩ := hp (to, fr) (by simp)
+    simp only at hfr
+    subst hfr
+    simp only [valAfter]
+    apply valAfter_noNan src hsrc name rest _ (fun p hp' => hp p (List.mem_cons_of_mem _ hp'))
+    split
+    · obtain ⟨v, hv⟩ := Option.isSome_iff_exists.mp hc
+      simp only [colOf, hv, Option.getD_some]
+      exact hsrc (c, v) (lookup_mem c v src.cols hv)
+    · exact h0
+
+/-- **Only the target's fields, no missing value** (`fields_complete` at the level of one cast): positional
+entries, no NaN in the source, no NaN among the declared defaults (i.e. no `[]` default — D08 is exactly the
+failure of this hypothesis) ⇒ the result has exactly the declared column names and contains no NaN. -/
+theorem cast_fields (lists : List (String × Frame)) (src : Frame) (hwf : src.WF)
+    (schema : List (String × Cell)) (mapping : List (String × MapFrom)) (hp : PosOnly src mapping)
+    (hsrc : ∀ p ∈ src.cols, ∀ x ∈ p.2, x ≠ Cell.nan) (hd : ∀ p ∈ schema, p.2 ≠ Cell.nan) :
+    ∃ out, cast lists src schema mapping = .ok out ∧ out.names = schema.map (·.1) ∧ noNan out = true ∧
+      out.index = rangeIdx src.nrows := by
+  refine ⟨_, cast_exact lists src hwf schema mapping hp, ?_, ?_, rfl⟩
+  · simp [Frame.names, List.map_map, Function.comp]
+  · simp only [noNan, List.all_eq_true, List.mem_map]
+    rintro q ⟨p, hpm, rfl⟩
+    simp only [bne_iff_ne, ne_eq]
+    intro x hx
+    refine valAfter_noNan src hsrc p.1 mapping _ hp ?_ x hx
+    intro y hy
+    rw [List.mem_replicate] at hy
+    rw [hy.2]
+    exact hd p hpm
+
+/-! non-vacuity -/
+
+def exSrc : Frame := ⟨[7, 3, 5], [("offset", [.num 10, .num 20, .num 30]), ("column", [.num 0, .num 1, .num 2]),
+                                   ("sample", [.str "a", .str "b", .str "c"])]⟩
+
+example : exSrc.WF ∧ PosOnly exSrc [("offset", .attr "offset"), ("column", .attr "column")] := by
+  refine ⟨by intro p hp; simp [exSrc] at hp; rcases hp with rfl | rfl | rfl <;> rfl, ?_⟩
+  intro p hp
+  simp at hp
+  rcases hp with rfl | rfl
+  · exact ⟨"offset", rfl, rfl⟩
+  · exact ⟨"column", rfl, rfl⟩
+
+example : (cast [] exSrc [("column", .num 0), ("offset", .num 0), ("volume", .num 5)]
+      [("offset", .attr "offset"), ("column", .attr "column")]).toOption
+    = some ⟨[0, 1, 2], [("column", [.num 0, .num 1, .num 2]), ("offset", [.num 10, .num 20, .num 30]),
+                       ("volume", [.num 5, .num 5, .num 5])]⟩ := by decide +kernel
+
+/-! ## loop shapes -/
+
+theorem charts_singletons (ts : List TChart) :
+    (Out.mk true (ts.map fun t => ⟨[], [t]⟩)).charts.length = ts.length := by
+  induction ts with
+  | nil => rfl
+  | cons a t ih => simpa [Out.charts, List.flatMap_cons] using ih
+
+theorem convSet_charts (T : Tables) (c : Conv) (src : Src) (k : Int) (m : SrcMap) (g : TGroup)
+    (h : convSet T c src k m = .ok g) : g.charts.length = 1 := by
+  unfold convSet at h
+  split at h
+  · cases h
+  · split at h
+    · cases h
+    · simp only [Except.ok.injEq] at h
+      subst h; rfl
+
+theorem mapE_convSet_charts (T : Tables) (c : Conv) (src : Src) (k : Int) :
+    ∀ (ms : List SrcMap) (gs : List TGroup), mapE (convSet T c src k) ms = .ok gs →
+      (gs.flatMap (·.charts)).length = ms.length
+  | [], gs, h => by
+    simp only [mapE, Except.ok.injEq] at h
+    subst h; rfl
+  | m :: t, gs, h => by
+    simp only [mapE] at h
+    split at h
+    · cases h
+    · rename_i g hg
+      split at h
+      · cases h
+      · rename_i r hr
+        simp only [Except.ok.injEq] at h
+        subst h
+        simp [List.flatMap_cons, convSet_charts T c src k m g hg, mapE_convSet_charts T c src k t r hr]
+        omega
+
+/-- **One target chart per source chart**: whenever the converter's loop has one of the five shapes the shipped
+converters use, a successful conversion returns exactly as many charts as the source has maps — for every source,
+every length.  (`mergedSetInLoop`, the shape of D13, is excluded by `goodShape`; see `d13_shape_counterexample`.) -/
+theorem one_per_source (T : Tables) (c : Conv) (src : Src) (k : Int) (out : Out)
+    (hs : goodShape c.shape = true) (h : convert T c src k = .ok out) :
+    onePerSource src out = true := by
+  unfold onePerSource
+  simp only [beq_iff_eq]
+  unfold convert at h
+  split at h
+  · -- single
+    split at h
+    · split at h
+      · cases h
+      · simp only [Except.ok.injEq] at h
+        subst h
+        simp_all [Out.charts]
+    · cases h
+  · -- singleSet
+    split at h
+    · split at h
+      · cases h
+      · rename_i g hg
+        simp only [Except.ok.injEq] at h
+        subst h
+        have := convSet_charts T c src k _ g hg
+        simp_all [Out.charts]
+    · cases h
+  · -- listOfMaps
+    split at h
+    · cases h
+    · rename_i ts hts
+      simp only [Except.ok.injEq] at h
+      subst h
+      rw [charts_singletons, mapE_length _ _ _ hts]
+  · -- listOfSets
+    split at h
+    · cases h
+    · rename_i gs hgs
+      simp only [Except.ok.injEq] at h
+      subst h
+      exact mapE_convSet_charts T c src k _ gs hgs
+  · -- mergedSet
+    split at h
+    · cases h
+    · rename_i ts hts
+      split at h
+      · cases h
+      · simp only [Except.ok.injEq] at h
+        subst h
+        simp [Out.charts, mapE_length _ _ _ hts]
+  · simp [goodShape, *] at hs
+  · cases h
+  · cases h
+
+/-! ## the generated table -/
+
+/-- **Tie to the source, content**: every `convert*` classmethod found under reamber/algorithms/convert/ was read
+completely (`unparsed = []`), has a good loop shape, and its *last* cast into hits / holds / bpms reads the current
+source map's hits / holds / bpms, builds the list class the target map declares for that attribute, names only
+declared columns, each once, and maps `offset`,`column`(,`length`) / `offset`,`bpm` to themselves; SVs are cast
+(`offset`,`multiplier`) exactly when both games have an `svs` list (osu ↔ Quaver: D12 is the failure of this). -/
+theorem table_static_ok : ∀ c ∈ converters, staticOk tables c = true := by decide +kernel
+
+/-- 16 converters and the merge variant -/
+theorem table_entries : converters.map (·.name) =
+    ["BMSToOsu.convert", "BMSToQua.convert", "BMSToSM.convert", "O2JToBMS.convert", "O2JToOsu.convert",
+     "O2JToQua.convert", "O2JToSM.convert", "O2JToSM.convert_merge", "OsuToBMS.convert", "OsuToQua.convert",
+     "OsuToSM.convert", "QuaToBMS.convert", "QuaToOsu.convert", "QuaToSM.convert", "SMToBMS.convert",
+     "SMToOsu.convert", "SMToQua.convert"] := by decide +kernel
+
+/-- **SVs carried for the osu ↔ Quaver pair** -/
+theorem table_svs_carried : ∀ c ∈ converters,
+    (c.name = "OsuToQua.convert" ∨ c.name = "QuaToOsu.convert") → castStaticOk tables c "svs" keysSvs = true := by
+  decide +kernel
+
+/-- **Metadata provenance**: for each of title / artist / creator / difficulty name that both games have, the last
+assignment to the target's attribute is built from the source's attribute (through the codec only); the
+difficulty name may carry a literal prefix. -/
+theorem table_meta_provenance : ∀ c ∈ converters, metaStaticOk c = true := by decide +kernel
+
+/-- **Loop shapes** (with `one_per_source`: one output per input for every shipped entry point) -/
+theorem table_shapes : ∀ c ∈ converters, goodShape c.shape = true := by decide +kernel
+
+/-- columns are shifted only through a declared parameter: exactly the three converters into BMS have one, with
+defaults 1 (O2Jam: column 0 is the scratch lane), 0, 0 -/
+theorem table_shift_params : (converters.filter (·.shiftParam.isSome)).map (fun c => (c.name, c.shiftParam, c.shiftDefault)) =
+    [("O2JToBMS.convert", some "move_right_by", some 1), ("OsuToBMS.convert", some "move_right_by", some 0),
+     ("QuaToBMS.convert", some "move_right_by", some 0)] := by decide +kernel
+
+/-- no mapping entry of any of the 17 entry points is assigned by row label (D27, `BMSToOsu`'s `hitsound_file`,
+is repaired: a Series-valued entry reappearing anywhere breaks this obligation) -/
+theorem table_labels_free : ∀ c ∈ converters, labelsFree c = true := by decide +kernel
+
+/-- a `[]` default (→ NaN, finding D08) is declared exactly by the list classes the five converters into Quaver build -/
+theorem table_list_defaults : ∀ c ∈ converters, tgtHasListDefault tables c = (c.tgtGame == "qua") := by decide +kernel
+
+/-! ## counterexamples: where the hypotheses fail, the model (= the code) breaks the specification -/
+
+def conv! (name : String) : Conv := (converters.find? (·.name == name)).getD default
+
+def exBmsMap (hitLabels : List Int) : SrcMap :=
+  ⟨[("hits", ⟨hitLabels, [("offset", [.num 100, .num 500]), ("column", [.num 0, .num 1]),
+                          ("sample", [.str "01", .str "02"])]⟩),
+    ("holds", ⟨[], [("length", []), ("offset", []), ("column", []), ("sample", [])]⟩),
+    ("bpms", ⟨[0], [("offset", [.num 0]), ("bpm", [.num 120]), ("metronome", [.num 4])]⟩)],
+   [("title", "t"), ("artist", "a"), ("version", "v")], ""⟩
+
+def verdictOf (name : String) (src : Src) (k : Int) : Option Verdict :=
+  let c := conv! name
+  (convert tables c src k).toOption.map (specAll tables c.srcGame c.tgtGame c.tgtMapClass src k)
+
+/-- all clauses hold for a fresh BMS chart converted to StepMania and (shift 2) for an osu-less example … -/
+example : verdictOf "BMSToSM.convert" ⟨[], [exBmsMap [0, 1]]⟩ 0 = some ⟨true, true, true, true, true⟩ := by
+  decide +kernel
+
+/-- **D08** (open): every conversion into Quaver leaves `keysounds` NaN — the `fields` clause fails, everything
+else holds.  The hypothesis `hd` of `cast_fields` (no `[]` default) is what fails. -/
+theorem d08_counterexample :
+    verdictOf "BMSToQua.convert" ⟨[], [exBmsMap [0, 1]]⟩ 0 = some ⟨true, true, true, false, true⟩ := by
+  decide +kernel
+
+/-- `BMSToOsu` as it was before D27 was repaired, written out by hand (not taken from the generated table):
+`hitsound_file` is the pandas Series `bms.<list>.sample.apply(str, args={"ascii"})`, assigned by row label -/
+def alignedBmsToOsu : Conv :=
+  { name := "BMSToOsu.convert (label-aligned hitsound_file)", srcGame := "bms", tgtGame := "osu",
+    param := "bms", loopVar := none, tgtMapClass := "OsuMap", shape := .single,
+    casts := [
+      ⟨"osu", "hits", "bms", "hits", "OsuHitList",
+        [("offset", .attr "offset"), ("column", .attr "column"), ("hitsound_file", .seriesStr "hits" "sample")]⟩,
+      ⟨"osu", "holds", "bms", "holds", "OsuHoldList",
+        [("offset", .attr "offset"), ("column", .attr "column"), ("length", .attr "length"),
+         ("hitsound_file", .seriesStr "holds" "sample")]⟩,
+      ⟨"osu", "bpms", "bms", "bpms", "OsuBpmList", [("offset", .attr "offset"), ("bpm", .attr "bpm")]⟩],
+    shiftParam := none, shiftDefault := none,
+    metas := [⟨"map", "title", .decoded (.attr "bms" "title")⟩, ⟨"map", "version", .decoded (.attr "bms" "version")⟩,
+              ⟨"map", "artist", .decoded (.attr "bms" "artist")⟩],
+    unparsed := [] }
+
+def verdictOfConv (c : Conv) (src : Src) (k : Int) : Option Verdict :=
+  (convert tables c src k).toOption.map (specAll tables c.srcGame c.tgtGame c.tgtMapClass src k)
+
+/-- **D27** (repaired; mechanism of D11): a mapping entry that is a pandas Series is assigned by row label.
+The entry passes every static content check (`staticOk`) — only `labelsFree` tells it apart … -/
+theorem d27_static : staticOk tables alignedBmsToOsu = true ∧ labelsFree alignedBmsToOsu = false := by
+  decide +kernel
+
+/-- … with fresh labels all clauses hold … -/
+theorem d27_fresh_ok :
+    verdictOfConv alignedBmsToOsu ⟨[], [exBmsMap [0, 1]]⟩ 0 = some ⟨true, true, true, true, true⟩ := by
+  decide +kernel
+
+/-- … labels `1, 2` (the chart after `hits.after(0)` dropped its first row): a NaN appears … -/
+theorem d27_counterexample :
+    verdictOfConv alignedBmsToOsu ⟨[], [exBmsMap [1, 2]]⟩ 0 = some ⟨true, true, true, false, true⟩ := by
+  decide +kernel
+
+/-- … duplicate labels: the conversion raises (`ValueError`), no chart is produced. -/
+theorem d27_duplicate_labels_raise :
+    verdictOfConv alignedBmsToOsu ⟨[], [exBmsMap [3, 3]]⟩ 0 = none := by
+  decide +kernel
+
+/-- the repaired converter (generated table) is exact on all three labellings -/
+theorem d27_repaired_ok :
+    verdictOf "BMSToOsu.convert" ⟨[], [exBmsMap [0, 1]]⟩ 0 = some ⟨true, true, true, true, true⟩ ∧
+    verdictOf "BMSToOsu.convert" ⟨[], [exBmsMap [1, 2]]⟩ 0 = some ⟨true, true, true, true, true⟩ ∧
+    verdictOf "BMSToOsu.convert" ⟨[], [exBmsMap [3, 3]]⟩ 0 = some ⟨true, true, true, true, true⟩ := by
+  decide +kernel
+
+/-- the mechanism of **D11** / **D27** (both repaired): label alignment of
+values labelled `1, 2` into a buffer labelled `0, 1` -/
+theorem label_alignment_counterexample :
+    (alignTo [0, 1] [1, 2] [.str "a", .str "b"]).toOption = some [.nan, .str "a"] := by decide +kernel
+
+/-- **D13** (repaired): with the set created inside the loop only the last chart survives -/
+theorem d13_shape_counterexample :
+    let c := { conv! "O2JToSM.convert_merge" with shape := Shape.mergedSetInLoop }
+    let src : Src := ⟨[("title", "t"), ("artist", "a"), ("creator", "c")],
+                      [exBmsMap [0, 1], exBmsMap [0, 1], exBmsMap [0, 1]]⟩
+    (convert tables c src 0).toOption.map (onePerSource src) = some false := by
+  decide +kernel
+
+/-- **D12** (repaired): assigning the cast to `qua.sv` leaves no cast into `svs` — the static check fails -/
+theorem d12_static_counterexample :
+    let c := conv! "OsuToQua.convert"
+    let c' := { c with casts := c.casts.map fun cc => if cc.tgtAttr == "svs" then { cc with tgtAttr := "sv" } else cc }
+    staticOk tables c' = false := by
+  decide +kernel
+
+/-! ## one pass of a converter body preserves the content -/
+
+theorem castStaticOk_unpack (T : Tables) (c : Conv) (attr : String) (keys : List String)
+    (h : castStaticOk T c attr keys = true) :
+    ∃ cc lc, declaredCls T.mcs c attr = some cc.cls ∧ lastCast c attr = some cc ∧
+      (cc.srcVar == curVar c) = true ∧ cc.srcAttr = attr ∧ findClass T.lcs cc.cls = some lc ∧
+      ∀ k ∈ keys, lastFrom cc.mapping k none = some (MapFrom.attr k) ∧ k ∈ (schemaOf lc).map (·.1) := by
+  unfold castStaticOk at h
+  split at h
+  · rename_i cls cc hd hl
+    simp only [Bool.and_eq_true, beq_iff_eq] at h
+    obtain ⟨⟨⟨h1, h2⟩, h3⟩, h4⟩ := h
+    subst h1
+    split at h4
+    · rename_i lc hf
+      simp only [Bool.and_eq_true, beq_iff_eq, List.all_eq_true, List.contains_iff_mem] at h4
+      obtain ⟨⟨h5, h6⟩, _⟩ := h4
+      exact ⟨cc, lc, hd, hl, by simpa using h2, h3, hf, fun k hk => ⟨h5 k hk, h6 k hk⟩⟩
+    · cases h4
+  · cases h
+
+theorem castGo_index (lists : List (String × Frame)) (sf : Frame) :
+    ∀ (m : List (String × MapFrom)) (b o : Frame), castGo lists sf m b = .ok o → o.index = b.index
+  | [], b, o, ho => by simp only [castGo, Except.ok.injEq] at ho; subst ho; rfl
+  | (t, fr) :: rest, b, o, ho => by
+    simp only [castGo] at ho
+    split at ho
+    · cases ho
+    · rename_i v hv
+      have := castGo_index lists sf rest ⟨b.index, setCol b.cols t v⟩ o ho
+      exact this
+
+theorem runCast_key_cols (T : Tables) (c : Conv) (cur : SrcMap) (cc : CastCall) (sf f : Frame) (lc : ListClass)
+    (keys : List String)
+    (hsrc : cur.lists.lookup cc.srcAttr = some sf) (hvar : (cc.srcVar == curVar c) = true)
+    (hcls : findClass T.lcs cc.cls = some lc) (h : runCast T c cur cc = .ok f)
+    (hk : ∀ k ∈ keys, lastFrom cc.mapping k none = some (MapFrom.attr k) ∧ k ∈ (schemaOf lc).map (·.1)) :
+    (∀ k ∈ keys, f.col? k = sf.col? k) ∧ f.nrows = sf.nrows := by
+  simp only [runCast, srcFrame, hvar, if_true, hsrc, hcls, cast] at h
+  constructor
+  · intro k hkm
+    obtain ⟨hl, hmem⟩ := hk k hkm
+    have := (castGo_col cur.lists sf k cc.mapping _ f none h
+      (by simpa [empty, Frame.names, List.map_map, Function.comp] using hmem) trivial).1
+    rw [hl] at this
+    exact this
+  · have hidx := castGo_index cur.lists sf cc.mapping _ f h
+    simp [Frame.nrows, hidx, empty, rangeIdx]
+
+theorem colsOf_congr (f g : Frame) : ∀ (ks : List String), (∀ k ∈ ks, f.col? k = g.col? k) → colsOf f ks = colsOf g ks
+  | [], _ => rfl
+  | k :: t, h => by
+    simp only [colsOf]
+    rw [h k (by simp), colsOf_congr f g t (fun k' hk' => h k' (by simp [hk']))]
+
+theorem projRows_congr (f g : Frame) (ks : List String) (hc : ∀ k ∈ ks, f.col? k = g.col? k)
+    (hn : f.nrows = g.nrows) : projRows f ks = projRows g ks := by
+  simp only [projRows, colsOf_congr f g ks hc, hn]
+
+theorem shiftRow_zero (r : List Cell) : shiftRow 0 r = r := by
+  match r with
+  | [] => rfl
+  | [_] => rfl
+  | o :: c :: rest =>
+    cases c <;> simp [shiftRow, addCell, Rat.add_zero]
+
+theorem sameRows_of_eq (t s : Frame) (ks : List String) (h : projRows t ks = projRows s ks)
+    (hs : (colsOf s ks).isSome = true) : sameRows t s ks 0 = true := by
+  unfold sameRows
+  rw [h]
+  obtain ⟨cs, hcs⟩ := Option.isSome_iff_exists.mp hs
+  simp only [projRows, hcs, Option.map_some]
+  have : (rowsOf cs s.nrows).map (shiftRow 0) = rowsOf cs s.nrows := by
+    rw [List.map_congr_left (g := id) (fun r _ => shiftRow_zero r)]; simp
+  rw [this]
+  exact List.isPerm_iff.mpr (List.Perm.refl _)
+
+theorem listFor_of_static (T : Tables) (c : Conv) (cur : SrcMap) (attr : String) (keys : List String) (f sf : Frame)
+    (hst : castStaticOk T c attr keys = true) (hsrc : cur.lists.lookup attr = some sf)
+    (h : req (listFor T c cur attr) = .ok f) :
+    (∀ k ∈ keys, f.col? k = sf.col? k) ∧ f.nrows = sf.nrows := by
+  obtain ⟨cc, lc, hd, hl, hvar, hattr, hcls, hk⟩ := castStaticOk_unpack T c attr keys hst
+  simp only [listFor, hd, hl] at h
+  split at h
+  · simp [req] at h
+  · rename_i f' hf'
+    simp only [req, Except.ok.injEq] at h
+    subst h
+    exact runCast_key_cols T c cur cc sf f' lc keys (by rw [hattr]; exact hsrc) hvar hcls hf' hk
+
+/-- **Content preserved by one pass of a converter body** (model ⊨ `contentOk`).  For a table entry that passes
+`staticOk` and has no shift parameter, and a source map with *arbitrary row labels* whose lists are well formed:
+if the pass succeeds, the target chart's hits `(offset, column)`, holds `(offset, column, length)` and tempo points
+`(offset, bpm)` are exactly the source's.  With `table_static_ok` this covers 14 of the 17 entry points; for the
+three converters into BMS (`stack().column += k`) see `convOne_content` below. -/
+theorem convOne_content_noshift (T : Tables) (c : Conv) (src : Src) (cur : SrcMap) (k : Int) (t : TChart)
+    (hst : staticOk T c = true) (hns : c.shiftParam = none) (hok : srcMapOk cur = true)
+    (h : convOne T c src cur k = .ok t) : contentOk 0 cur t = true := by
+  simp only [staticOk, Bool.and_eq_true] at hst
+  obtain ⟨⟨⟨⟨⟨⟨_, _⟩, hH⟩, hL⟩, hB⟩, _⟩, _⟩ := hst
+  simp only [srcMapOk, Bool.and_eq_true] at hok
+  obtain ⟨_, hlists⟩ := hok
+  unfold contentOk
+  split at hlists
+  · rename_i sh sl sb eh el eb
+    simp only [Bool.and_eq_true] at hlists
+    obtain ⟨⟨kh, kl⟩, kb⟩ := hlists
+    try simp only [eh, el, eb]
+    unfold convOne at h
+    split at h
+    · cases h
+    · split at h
+      · rename_i fh fl fb fs me rh rl rb _ _
+        simp only [hns, Except.ok.injEq] at h
+        subst h
+        obtain ⟨ch, nh⟩ := listFor_of_static T c cur "hits" keysHits fh sh hH eh rh
+        obtain ⟨cl, nl⟩ := listFor_of_static T c cur "holds" keysHolds fl sl hL el rl
+        obtain ⟨cb, nb⟩ := listFor_of_static T c cur "bpms" keysBpms fb sb hB eb rb
+        simp only [Bool.and_eq_true]
+        exact ⟨⟨sameRows_of_eq _ _ _ (projRows_congr _ _ _ ch nh) kh,
+                sameRows_of_eq _ _ _ (projRows_congr _ _ _ cl nl) kl⟩,
+               sameRows_of_eq _ _ _ (projRows_congr _ _ _ cb nb) kb⟩
+      all_goals cases h
+  · cases hlists
+
+/-- non-vacuity: a StepMania chart with shuffled, gapped labels (as after a filter and a reverse sort) satisfies the
+hypotheses, the pass succeeds, and all clauses of the specification hold -/
+example :
+    let m : SrcMap := ⟨[("hits", ⟨[9, 4], [("offset", [.num 100, .num 50]), ("column", [.num 0, .num 3])]⟩),
+                        ("holds", ⟨[2], [("length", [.num 25]), ("offset", [.num 10]), ("column", [.num 1])]⟩),
+                        ("bpms", ⟨[7], [("bpm", [.num 120]), ("metronome", [.num 4]), ("offset", [.num 0])]⟩)],
+                       [("difficulty", "Hard"), ("difficulty_val", "9")], ""⟩
+    let src : Src := ⟨[("title", "t"), ("artist", "a"), ("credit", "c"), ("title_translit", "t"),
+                       ("artist_translit", "a"), ("music", "m"), ("background", "b")], [m]⟩
+    srcMapOk m = true ∧ (conv! "SMToOsu.convert").shiftParam = none ∧
+    verdictOf "SMToOsu.convert" src 0 = some ⟨true, true, true, true, true⟩ := by decide +kernel
+
+/-- the shifted case on an instance: Quaver → BMS with `move_right_by = 2` -/
+example :
+    let m : SrcMap := ⟨[("svs", ⟨[], [("multiplier", []), ("offset", [])]⟩),
+                        ("hits", ⟨[9, 4], [("column", [.num 0, .num 3]), ("offset", [.num 100, .num 50]),
+                                           ("keysounds", [.other "list", .other "list"])]⟩),
+                        ("holds", ⟨[2], [("keysounds", [.other "list"]), ("length", [.num 25]), ("column", [.num 1]),
+                                         ("offset", [.num 10])]⟩),
+                        ("bpms", ⟨[7], [("bpm", [.num 120]), ("metronome", [.num 4]), ("offset", [.num 0])]⟩)],
+                       [("title", "t"), ("artist", "a"), ("creator", "c"), ("difficulty_name", "d")], ""⟩
+    verdictOf "QuaToBMS.convert" ⟨[], [m]⟩ 2 = some ⟨true, true, true, true, true⟩ ∧
+    verdictOf "QuaToBMS.convert" ⟨[], [m]⟩ 0 = some ⟨true, true, true, true, true⟩ := by decide +kernel
+
+/-! ## the shifted case (`stack().column += k`) and all loop shapes -/
+
+theorem addCol_lookup (k : Int) (name : String) :
+    ∀ (cols : List (String × List Cell)),
+      List.lookup name (cols.map fun p => if p.1 == "column" then (p.1, p.2.map (addCell k)) else p)
+        = if name == "column" then (cols.lookup name).map (List.map (addCell k)) else cols.lookup name
+  | [] => by simp [List.lookup]
+  | (c, v) :: rest => by
+    have ih := addCol_lookup k name rest
+    by_cases h3 : (c == "column") = true
+    · have hc3 : c = "column" := by simpa using h3
+      have hhead : (((c, v) :: rest).map fun p => if p.1 == "column" then (p.1, p.2.map (addCell k)) else p)
+          = (c, v.map (addCell k)) :: rest.map (fun p => if p.1 == "column" then (p.1, p.2.map (addCell k)) else p) := by
+        simp
+        exact fun h => absurd hc3 h
+      rw [hhead]
+      by_cases hc : (name == c) = true
+      · have hn : name = c := by simpa using hc
+        have hn3 : (name == "column") = true := by rw [hn]; exact h3
+        rw [lookup_cons_eq name c _ _ hc, lookup_cons_eq name c _ _ hc, if_pos hn3]; rfl
+      · have hc' : (name == c) = false := by simpa using hc
+        rw [lookup_cons_ne name c _ _ hc', lookup_cons_ne name c _ _ hc']
+        exact ih
+    · have h3' : (c == "column") = false := by simpa using h3
+      have hhead : (((c, v) :: rest).map fun p => if p.1 == "column" then (p.1, p.2.map (addCell k)) else p)
+          = (c, v) :: rest.map (fun p => if p.1 == "column" then (p.1, p.2.map (addCell k)) else p) := by
+        simp
+        exact fun h => absurd h (by simpa using h3')
+      rw [hhead]
+      by_cases hc : (name == c) = true
+      · have hn : name = c := by simpa using hc
+        have hn3 : (name == "column") = false := by rw [hn]; exact h3'
+        rw [lookup_cons_eq name c _ _ hc, lookup_cons_eq name c _ _ hc, if_neg (by simp [hn3])]
+      · have hc' : (name == c) = false := by simpa using hc
+        rw [lookup_cons_ne name c _ _ hc', lookup_cons_ne name c _ _ hc']
+        exact ih
+
+/-- a column of a list after `stack().column += k` and the relabelling -/
+theorem restacked_col (k : Int) (s0 : Nat) (f : Frame) (name : String) :
+    (relabel s0 (addCol k f)).col? name
+      = if name == "column" then (f.col? name).map (List.map (addCell k)) else f.col? name := by
+  simp only [Frame.col?, relabel, addCol]
+  exact addCol_lookup k name f.cols
+
+theorem restacked_nrows (k : Int) (s0 : Nat) (f : Frame) : (relabel s0 (addCol k f)).nrows = f.nrows := by
+  simp [relabel, Frame.nrows, addCol]
+
+theorem getD_map_addCell (k : Int) (c : List Cell) (i : Nat) :
+    (c.map (addCell k)).getD i .nan = addCell k (c.getD i .nan) := by
+  simp only [List.getD_eq_getElem?_getD, List.getElem?_map]
+  cases c[i]? <;> rfl
+
+theorem projRows_restacked_hits (k : Int) (s0 : Nat) (f : Frame) (h : (colsOf f keysHits).isSome = true) :
+    projRows (relabel s0 (addCol k f)) keysHits = (projRows f keysHits).map (List.map (shiftRow k)) := by
+  have e1 : ("offset" == "column") = false := by decide
+  have e2 : ("column" == "column") = true := by decide
+  unfold projRows
+  rw [restacked_nrows]
+  simp only [keysHits, colsOf, restacked_col, e1, e2] at h ⊢
+  cases ho : f.col? "offset" with
+  | none => simp [ho] at h
+  | some co =>
+    cases hc : f.col? "column" with
+    | none => simp [ho, hc] at h
+    | some cc =>
+      simp [rowsOf, shiftRow]
+      intro a _
+      cases cc[a]? <;> rfl
+
+theorem projRows_restacked_holds (k : Int) (s0 : Nat) (f : Frame) (h : (colsOf f keysHolds).isSome = true) :
+    projRows (relabel s0 (addCol k f)) keysHolds = (projRows f keysHolds).map (List.map (shiftRow k)) := by
+  have e1 : ("offset" == "column") = false := by decide
+  have e2 : ("column" == "column") = true := by decide
+  have e3 : ("length" == "column") = false := by decide
+  unfold projRows
+  rw [restacked_nrows]
+  simp only [keysHolds, colsOf, restacked_col, e1, e2, e3] at h ⊢
+  cases ho : f.col? "offset" with
+  | none => simp [ho] at h
+  | some co =>
+    cases hc : f.col? "column" with
+    | none => simp [ho, hc] at h
+    | some cc =>
+      cases hl : f.col? "length" with
+      | none => simp [ho, hc, hl] at h
+      | some cl =>
+        simp [rowsOf, shiftRow]
+        intro a _
+        cases cc[a]? <;> rfl
+
+theorem projRows_restacked_bpms (k : Int) (s0 : Nat) (f : Frame) :
+    projRows (relabel s0 (addCol k f)) keysBpms = projRows f keysBpms := by
+  have e1 : ("offset" == "column") = false := by decide
+  have e4 : ("bpm" == "column") = false := by decide
+  unfold projRows
+  rw [restacked_nrows]
+  simp only [keysBpms, colsOf, restacked_col, e1, e4]
+  simp
+
+theorem sameRows_of_shift (t s : Frame) (ks : List String) (k : Int)
+    (h : projRows t ks = (projRows s ks).map (List.map (shiftRow k)))
+    (hs : (colsOf s ks).isSome = true) : sameRows t s ks k = true := by
+  unfold sameRows
+  rw [h]
+  obtain ⟨cs, hcs⟩ := Option.isSome_iff_exists.mp hs
+  simp only [projRows, hcs, Option.map_some]
+  exact List.isPerm_iff.mpr (List.Perm.refl _)
+
+theorem restacked_congr (k : Int) (s0 s1 : Nat) (f g : Frame) (ks : List String)
+    (hc : ∀ key ∈ ks, f.col? key = g.col? key) (hn : f.nrows = g.nrows) :
+    projRows (relabel s0 (addCol k f)) ks = projRows (relabel s1 (addCol k g)) ks := by
+  apply projRows_congr
+  · intro key hk
+    rw [restacked_col, restacked_col, hc key hk]
+  · rw [restacked_nrows, restacked_nrows, hn]
+
+/-- the shift a converter applies: its argument when it has a shift parameter, else none -/
+def effShift (c : Conv) (k : Int) : Int := if c.shiftParam.isSome then k else 0
+
+/-- **Content preserved by one pass of a converter body** (model ⊨ `contentOk`), all 17 entry points. -/
+theorem convOne_content (T : Tables) (c : Conv) (src : Src) (cur : SrcMap) (k : Int) (t : TChart)
+    (hst : staticOk T c = true) (hok : srcMapOk cur = true)
+    (h : convOne T c src cur k = .ok t) : contentOk (effShift c k) cur t = true := by
+  cases hsp : c.shiftParam with
+  | none =>
+    have : effShift c k = 0 := by simp [effShift, hsp]
+    rw [this]
+    exact convOne_content_noshift T c src cur k t hst hsp hok h
+  | some p =>
+    have hk : effShift c k = k := by simp [effShift, hsp]
+    rw [hk]
+    simp only [staticOk, Bool.and_eq_true] at hst
+    obtain ⟨⟨⟨⟨⟨⟨_, _⟩, hH⟩, hL⟩, hB⟩, _⟩, _⟩ := hst
+    simp only [srcMapOk, Bool.and_eq_true] at hok
+    obtain ⟨_, hlists⟩ := hok
+    unfold contentOk
+    split at hlists
+    · rename_i sh sl sb eh el eb
+      simp only [Bool.and_eq_true] at hlists
+      obtain ⟨⟨kh, kl⟩, kb⟩ := hlists
+      try simp only [eh, el, eb]
+      unfold convOne at h
+      split at h
+      · cases h
+      · split at h
+        · rename_i fh fl fb fs me rh rl rb _ _
+          simp only [hsp, Except.ok.injEq] at h
+          subst h
+          obtain ⟨ch, nh⟩ := listFor_of_static T c cur "hits" keysHits fh sh hH eh rh
+          obtain ⟨cl, nl⟩ := listFor_of_static T c cur "holds" keysHolds fl sl hL el rl
+          obtain ⟨cb, nb⟩ := listFor_of_static T c cur "bpms" keysBpms fb sb hB eb rb
+          simp only [Bool.and_eq_true]
+          refine ⟨⟨sameRows_of_shift _ _ _ _ ?_ kh, sameRows_of_shift _ _ _ _ ?_ kl⟩, sameRows_of_eq _ _ _ ?_ kb⟩
+          · rw [restacked_congr k _ 0 fh sh keysHits ch nh]
+            exact projRows_restacked_hits k 0 sh kh
+          · rw [restacked_congr k _ 0 fl sl keysHolds cl nl]
+            exact projRows_restacked_holds k 0 sl kl
+          · rw [projRows_restacked_bpms]
+            exact projRows_congr _ _ _ cb nb
+        all_goals cases h
+    · cases hlists
+
+/-! ### lifting through the loop shapes -/
+
+theorem mapE_zip_all {α β γ} (f : α → Except Err β) (Q : α → β → Bool) (G : β → γ) :
+    ∀ (l : List α) (r : List β), mapE f l = .ok r → (∀ a ∈ l, ∀ b, f a = .ok b → Q a b = true) →
+      (l.zip (r.map fun t => (G t, t))).all (fun p => Q p.1 p.2.2) = true
+  | [], r, h, _ => by simp
+  | a :: t, r, h, hq => by
+    simp only [mapE] at h
+    split at h
+    · cases h
+    · rename_i b hb
+      split at h
+      · cases h
+      · rename_i r' hr
+        simp only [Except.ok.injEq] at h
+        subst h
+        simp only [List.map_cons, List.zip_cons_cons, List.all_cons, Bool.and_eq_true]
+        exact ⟨hq a (by simp) b hb, mapE_zip_all f Q G t r' hr (fun a' ha' => hq a' (by simp [ha']))⟩
+
+theorem pairs_singletons (il : Bool) (ts : List TChart) :
+    (Out.mk il (ts.map fun t => ⟨[], [t]⟩)).pairs = ts.map fun t => ((⟨[], [t]⟩ : TGroup), t) := by
+  induction ts with
+  | nil => rfl
+  | cons a t ih => simpa [Out.pairs, List.flatMap_cons] using ih
+
+theorem pairs_merged (il : Bool) (sm : List (String × String)) (ts : List TChart) :
+    (Out.mk il [⟨sm, ts⟩]).pairs = ts.map fun t => ((⟨sm, ts⟩ : TGroup), t) := by
+  simp [Out.pairs]
+
+theorem convSet_inv (T : Tables) (c : Conv) (src : Src) (k : Int) (m : SrcMap) (g : TGroup)
+    (h : convSet T c src k m = .ok g) : ∃ t sm, g = ⟨sm, [t]⟩ ∧ convOne T c src m k = .ok t := by
+  unfold convSet at h
+  split at h
+  · cases h
+  · rename_i t ht
+    split at h
+    · cases h
+    · rename_i sm _
+      simp only [Except.ok.injEq] at h
+      exact ⟨t, sm, h.symm, ht⟩
+
+theorem mapE_convSet_zip_all (T : Tables) (c : Conv) (src : Src) (k : Int) (Q : SrcMap → TChart → Bool) :
+    ∀ (ms : List SrcMap) (gs : List TGroup), mapE (convSet T c src k) ms = .ok gs →
+      (∀ m ∈ ms, ∀ t, convOne T c src m k = .ok t → Q m t = true) →
+      (ms.zip (gs.flatMap fun g => g.charts.map fun t => (g, t))).all (fun p => Q p.1 p.2.2) = true
+  | [], gs, h, _ => by simp
+  | m :: rest, gs, h, hq => by
+    simp only [mapE] at h
+    split at h
+    · cases h
+    · rename_i g hg
+      split at h
+      · cases h
+      · rename_i r hr
+        simp only [Except.ok.injEq] at h
+        subst h
+        obtain ⟨t, sm, rfl, ht⟩ := convSet_inv T c src k m g hg
+        simp only [List.flatMap_cons, List.map_cons, List.map_nil, List.singleton_append, List.zip_cons_cons,
+          List.all_cons, Bool.and_eq_true]
+        exact ⟨hq m (by simp) t ht,
+          mapE_convSet_zip_all T c src k Q rest r hr (fun m' hm' => hq m' (by simp [hm']))⟩
+
+/-- **Content preserved by every converter** (model ⊨ `specAll.content`): for a table entry that passes `staticOk`
+(all 17 do: `table_static_ok`), every source whose maps are well formed — arbitrary row labels, any number of maps —
+and every shift argument: if the conversion succeeds, chart `i` of the result holds exactly the hits, holds and
+tempo points of source map `i`, the column shifted by the shift argument only where the converter has one. -/
+theorem convert_content (T : Tables) (c : Conv) (src : Src) (k : Int) (out : Out)
+    (hst : staticOk T c = true) (hsrc : ∀ m ∈ src.maps, srcMapOk m = true)
+    (h : convert T c src k = .ok out) :
+    (specAll T c.srcGame c.tgtGame c.tgtMapClass src (effShift c k) out).content = true := by
+  show (src.maps.zip out.pairs).all (fun p => contentOk (effShift c k) p.1 p.2.2) = true
+  have hq : ∀ m ∈ src.maps, ∀ t, convOne T c src m k = .ok t → contentOk (effShift c k) m t = true :=
+    fun m hm t ht => convOne_content T c src m k t hst (hsrc m hm) ht
+  unfold convert at h
+  split at h
+  · -- single
+    split at h
+    · rename_i m hm
+      split at h
+      · cases h
+      · rename_i t ht
+        simp only [Except.ok.injEq] at h
+        subst h
+        simp only [hm, Out.pairs, List.flatMap_cons, List.flatMap_nil, List.map_cons, List.map_nil, List.append_nil,
+          List.zip_cons_cons, List.zip_nil_right, List.all_cons, List.all_nil, Bool.and_true]
+        exact hq m (by simp [hm]) t ht
+    · cases h
+  · -- singleSet
+    split at h
+    · rename_i m hm
+      split at h
+      · cases h
+      · rename_i g hg
+        simp only [Except.ok.injEq] at h
+        subst h
+        obtain ⟨t, sm, rfl, ht⟩ := convSet_inv T c src k m g hg
+        simp only [hm, Out.pairs, List.flatMap_cons, List.flatMap_nil, List.map_cons, List.map_nil, List.append_nil,
+          List.zip_cons_cons, List.zip_nil_right, List.all_cons, List.all_nil, Bool.and_true]
+        exact hq m (by simp [hm]) t ht
+    · cases h
+  · -- listOfMaps
+    split at h
+    · cases h
+    · rename_i ts hts
+      simp only [Except.ok.injEq] at h
+      subst h
+      rw [pairs_singletons]
+      exact mapE_zip_all _ _ _ _ ts hts hq
+  · -- listOfSets
+    split at h
+    · cases h
+    · rename_i gs hgs
+      simp only [Except.ok.injEq] at h
+      subst h
+      exact mapE_convSet_zip_all T c src k _ _ gs hgs hq
+  · -- mergedSet
+    split at h
+    · cases h
+    · rename_i ts hts
+      split at h
+      · cases h
+      · rename_i sm _
+        simp only [Except.ok.injEq] at h
+        subst h
+        rw [pairs_merged]
+        exact mapE_zip_all _ _ _ _ ts hts hq
+  · -- mergedSetInLoop: excluded by staticOk
+    simp only [staticOk, Bool.and_eq_true] at hst
+    simp_all [goodShape]
+  · cases h
+  · cases h
+
+/-- **The shipped converters**: for each of the 17 generated entries, every well-formed source (any labels, any
+number of maps), every shift argument: a successful conversion returns one chart per source map, and chart `i`
+holds exactly the hits / holds / tempo points of source map `i` (column shifted by the shift argument only). -/
+theorem converters_content_and_count : ∀ c ∈ converters, ∀ (src : Src) (k : Int) (out : Out),
+    (∀ m ∈ src.maps, srcMapOk m = true) → convert tables c src k = .ok out →
+    (specAll tables c.srcGame c.tgtGame c.tgtMapClass src (effShift c k) out).content = true ∧
+    (specAll tables c.srcGame c.tgtGame c.tgtMapClass src (effShift c k) out).onePer = true := by
+  intro c hc src k out hsrc h
+  exact ⟨convert_content tables c src k out (table_static_ok c hc) hsrc h,
+         one_per_source tables c src k out (table_shapes c hc) h⟩
+
+end Reamber.Convert
